@@ -347,7 +347,7 @@ def observe_otbs(inst, fmt, desig, rng):
 
 
 def tie_formats(ctx, ninst=None):
-    n = ninst or ctx.n(9, 90)
+    n = ninst or ctx.n(18, 150)
     rng = ctx.rng
     terms, meta, disagreements, dist = [], [], [], {}
     nontriv = set()
@@ -449,7 +449,7 @@ def compare_instance(inst, rng, N):
 
 
 def oracle_formats(ctx, ninst=None):
-    n = ninst or ctx.n(6, 60)
+    n = ninst or ctx.n(15, 90)
     N = ctx.n(3, 4)
     rng = ctx.rng
     failures, samples, nt = [], [], set()
